@@ -36,6 +36,8 @@ let err_class (e : ReadSeeker.err option) : string =
   match e with
   | None -> "ok"
   | Some ReadSeeker.EEOF -> "eof"
+  | Some ReadSeeker.EUnexpectedEOF -> "unexpected-eof"
+  | Some (ReadSeeker.EStore c) when int_of_n c = 5 -> "wrapped-eof"
   | Some (ReadSeeker.EStore c) -> (match int_of_n c with 1 -> "missing" | 2 -> "fault" | 3 -> "other" (* undecodable object: Chunk.Data() fails *) | n -> "store" ^ string_of_int n)
   | Some _ -> "other"   (* seek errors and "no data in chunk": plain errors in the Go code *)
 
